@@ -8,7 +8,7 @@ ROOT = os.path.dirname(os.path.dirname(os.path.abspath(__file__)))
 CHECKS = {
  "C01": ("generated diagrams x (h,t) x reduced x ring x crossing order x thread count; rank and torsion per degree / bidegree compared with an independent cube-of-resolutions complex whose homology is computed by the harness's own modular / p-adic elimination",
          "sampled diagrams up to the oracle's size cap (2^n states); torsion compared at primes <= 31 and at the prime factors the library reports; elimination order sampled through crossing permutations, pool sizes and the engine's own hash order",
-         "property-based testing (proptest): differential against a reference model (own cube of resolutions + own linear algebra), shrinking to replay file"),
+         "property-based testing (proptest): differential against a reference model (own cube of resolutions + own linear algebra), shrinking to replay file; thorough tier also runs the quick workload on a build with the code base's debug assertions enabled"),
  "C02": ("generated base diagram + sequence of isotopy moves / relabelings / orientation reversal / mirror; bigraded tables compared (mirror: transformed)",
          "moves are the implemented set (braid-form R2/R3, Markov moves, R1 kinks anywhere, renumbering, reordering); diagrams of one link are those reachable by it",
          "property-based testing (proptest): metamorphic relations over generated move histories"),
@@ -26,42 +26,42 @@ CHECKS = {
          "property-based testing (proptest): invariants + metamorphic relations over generated diagrams, moves and crossing changes"),
  "C07": ("complexes built by construction (planted ranks and torsion, random unimodular changes of basis) over 11 rings; rank/torsion compared with the planted answer and with the harness's own elimination; generators are cycles, boundaries map to 0 mod torsion, coordinates of generators are the standard basis",
          "planted construction and reference products are trusted; sizes <= 8 per degree (quick)",
-         "property-based testing (proptest): reference model + certificate checking with reference arithmetic"),
+         "property-based testing (proptest): reference model + certificate checking with reference arithmetic; thorough tier also runs the quick workload on a build with the code base's debug assertions enabled"),
  "C08": ("generated complexes x reduction scripts (pivot type, condition, shallow/deep, per-degree steps, tracked vectors) x thread counts; chain-map equations F d = d' F, d B = B d', F B = I, d'd' = 0, tracked vectors = F v, homology preserved",
-         "equations verified with reference products on extracted matrices; thread schedules sampled by pool size",
-         "property-based testing (proptest): certificate (chain-homotopy equations) over generated complexes and reduction scripts"),
+         "equations verified with reference products on extracted matrices; thread schedules sampled by pool size and hook-controlled strategies; one case in five is the two-term complex of a large conflict-rich sparse matrix",
+         "property-based testing (proptest): certificate (chain-homotopy equations) over generated complexes and reduction scripts; thorough tier also runs the quick workload on a build with the code base's debug assertions enabled"),
  "C09": ("generated matrices (planted and random, all shapes incl. 0 x n, huge entries) over 13 rings x all 16 flag subsets; D = P A Q, P P^-1 = I, Q Q^-1 = I, diagonal chain normalised, agreement with gcds of minors / planted factors",
          "certificates verified with reference products; the certificates imply D is the Smith form",
-         "property-based testing (proptest): certificate checking with reference arithmetic"),
+         "property-based testing (proptest): certificate checking with reference arithmetic; thorough tier adds coverage-guided fuzzing (libFuzzer through cargo-fuzz) of the same case type and oracle, bytes decoded structurally; thorough tier also runs the quick workload on a build with the code base's debug assertions enabled"),
  "C10": ("generated integer / Gaussian / Eisenstein matrices of any shape and rank (HNF) and full row rank (LLL), huge entries; H = P A, P P^-1 = I, echelon / normalised pivots / reduced above; B = P A, P unimodular, size-reduced and Lovasz by exact rational Gram-Schmidt",
          "exact Gram-Schmidt in BigRational in the harness; bounds N(mu) <= 1/2 (Z[i]), 3/4 (Z[w]) implied by any correct coordinate rounding",
-         "property-based testing (proptest): certificate checking with reference arithmetic"),
+         "property-based testing (proptest): certificate checking with reference arithmetic; thorough tier adds coverage-guided fuzzing (libFuzzer through cargo-fuzz) of the same case type and oracle, bytes decoded structurally; thorough tier also runs the quick workload on a build with the code base's debug assertions enabled"),
  "C11": ("generated sparse matrices (incl. a conflict-rich family) x pivot type x condition x 1..16 threads x harness-owned schedule strategies installed through the verif-hooks schedule points; returned pivot set valid: distinct rows/cols, condition, triangular after the permutations, no panic",
          "schedules are sampled (Free, Barrier, Priority, Delay), not enumerated; deadlock freedom only as absence of watchdog hits",
          "property-based testing (proptest) with schedule control through hooks: validity predicate on every returned pivot set"),
  "C12": ("generated triangular systems (explicit stored zeros, non-1 unit diagonals), partial-triangular matrices, block matrices, thread pools, repeated calls on one pool; A X = Y, X A = Y, S = D - C A^-1 B, F M B = S, F B = I, block sum, 1 thread == n threads",
          "dense reference model in the harness; schedules sampled by pool size and call sequences",
-         "property-based testing (proptest): reference model (dense) + determinism across thread counts"),
+         "property-based testing (proptest): reference model (dense) + determinism across thread counts; thorough tier also runs the quick workload on a build with the code base's debug assertions enabled"),
  "C13": ("generated operation histories on SpMat / SpVec / Mat / Trans over Z, Q, F3 with stored zeros and zero dimensions, shadowed by a dense Vec<Vec<_>> model compared after every step",
          "only operations valid in the model are generated (the property is about values of valid operations)",
-         "property-based testing (proptest): stateful reference model"),
+         "property-based testing (proptest): stateful reference model; thorough tier adds coverage-guided fuzzing (libFuzzer through cargo-fuzz) of the same case type and oracle, bytes decoded structurally; thorough tier also runs the quick workload on a build with the code base's debug assertions enabled"),
  "C14": ("generated operation histories (+ - * / neg in all by-value/by-ref/assign forms, comparisons, ring axioms) on 26 scalar types, mirrored in num-bigint / num-rational / textbook Z[w], F_p; canonical form, == and Ord checked after every step",
          "machine types: histories end where the exact result stops being representable; overflow panics of composite machine types are discards",
-         "property-based testing (proptest): stateful reference model"),
+         "property-based testing (proptest): stateful reference model; thorough tier adds coverage-guided fuzzing (libFuzzer through cargo-fuzz) of the same case type and oracle, bytes decoded structurally"),
  "C15": ("generated operand pairs in 25 Euclidean types with structured shapes (divisor divides, planted common factor, exact ties, associates, zeros), magnitudes to 10^300: division with remainder, exact rounding, gcd/gcdx/lcm laws, units, normalisation",
          "reference Euclidean size and normal forms written from the definitions; at an exact tie either neighbour is accepted",
-         "property-based testing (proptest): algebraic laws checked with reference arithmetic"),
+         "property-based testing (proptest): algebraic laws checked with reference arithmetic; thorough tier adds coverage-guided fuzzing (libFuzzer through cargo-fuzz) of the same case type and oracle, bytes decoded structurally"),
  "C16": ("generated operation histories on Poly/LPoly/Poly2/LPoly2/Poly3/LPoly3/PolyN/LPolyN/HPoly/Lc over 5 coefficient rings, shadowed by a BTreeMap model; no zero terms / zero exponents, queries, eval homomorphism, monomial orders",
          "model = BTreeMap<exponent vector, reference coefficient>",
-         "property-based testing (proptest): stateful reference model"),
+         "property-based testing (proptest): stateful reference model; thorough tier adds coverage-guided fuzzing (libFuzzer through cargo-fuzz) of the same case type and oracle, bytes decoded structurally"),
  "C17": ("generated constructor + operation histories on BitSeq compared step by step with a Vec<bool> model, lengths biased to the 64-bit boundary; operations exceeding 64 must be rejected",
          "rejection = panic or Err; out-of-range indices are not generated",
-         "property-based testing (proptest): stateful reference model"),
+         "property-based testing (proptest): stateful reference model; thorough tier adds coverage-guided fuzzing (libFuzzer through cargo-fuzz) of the same case type and oracle, bytes decoded structurally"),
  "C18": ("generated valid PD codes (table, braid closures, kinks, split unions, over-only components, renumbered/reordered) and braid words: components, signs (exists consistent orientation), writhe invariances, resolutions and circle counts, Seifert circles, braid closure counts, against the harness's own half-edge combinatorics",
          "own combinatorics on half-edges; orientation of over-only components existentially quantified",
          "property-based testing (proptest): reference model (own PD combinatorics) + metamorphic relations"),
  "C19": ("built-in strongly invertible diagrams, mirrors, reorderings, symmetric kinks x (h,t) over F2 and F2[H] x reduced: library involutive homology == homology of the harness's own cone of 1+tau on its own cube; symmetric build == ordinary Kh; ssi laws",
-         "new involutive diagrams only by symmetric kinks / reordering / mirror of the built-in table",
+         "new involutive diagrams by generated equivariant Reidemeister I moves (on-axis kinks, off-axis kink pairs), reordering and mirror of the built-in table; H-torsion exponents over F2[H] compared through truncations F2[H]/(H^k)",
          "property-based testing (proptest): reference model (own mapping cone) + metamorphic relations"),
  "C20": ("generated argument vectors for the ykh binary (built from /repo) run as a child process: parsed table == direct library call with the same ring and parameters; unsupported / malformed input => non-zero exit, message, no table",
          "table grammar written from the README and format.rs; 120 s watchdog per invocation",
